@@ -394,8 +394,6 @@ func (z *zoneEngine) getterEqualities(fn *ssa.Function) map[*ssa.Call]*ssa.Call 
 // values returned by callbacks). One line of reason each; everything else must
 // be proved. Key = function:kind#ordinal as printed by the rule.
 var reviewedNonneg = map[string]string{
-	"(*core.Line).TokenizeBlock:postcondition#5":    "the `match == count` return follows closeToken, which appended a second element to split on that path (index 1 exists)",
-	"(*core.Line).TokenizeBlock:postcondition#7":    "same: closeToken rebuilt split with two elements when idx == cpos",
 	"(*core.Line).checkRange:postcondition#4":       "epos >= 0 here means the reordering test `epos > -1 && epos < bpos` ran with epos > -1: either it swapped (bpos < epos) or epos >= bpos already; the phis of the swap hide it from the domain",
 	"(*core.Selection).Pos:postcondition#19":        "after selectToCursor / the visual increment epos >= 0, so the second checkRange reorders: bpos <= epos",
 	"(*core.Selection).checkRange:postcondition#12": "bpos < 0 implies epos >= 0 here (both negative returned invalid above), so the swapped bpos is >= 0",
@@ -448,7 +446,6 @@ var reviewedBounds = map[string]string{
 	"(*core.Line).TokenizeBlock:index#0":                 "cpos is clamped into [0, Len] and decremented when it equals Len >= 1: 0 <= cpos < len(line)",
 	"(*core.Line).TokenizeBlock:index#1":                 "same position",
 	"(*core.Line).TokenizeBlock:index#2":                 "idx is the range index of line",
-	"(*core.Line).TokenizeBlock:index#3":                 "reached only on `idx == cpos` after closeToken rebuilt split with two elements for that case",
 	"(*core.Selection).Pop:slice#0":                      "(bpos, epos) come from Selection.Pos, which returns -1, -1 (handled above) or 0 <= bpos <= epos <= Len; the named results are spilled because of the deferred Reset",
 	"(*core.Selection).SelectAShellWord:index#0":         "mark > 0 is tested in the same expression; mark is a position on the line (cursor position or start of a selected word)",
 	"(*core.Selection).SelectAShellWord:index#1":         "cpos < Len()-1 is tested in the same expression",
